@@ -608,7 +608,15 @@ func (l c11) Exec(env *core.Env) *core.Result {
 			for k, v := range rs.annotations() {
 				wantMann[k] = v // annotations a signing plugin returned for the manifest
 			}
-			if !sameMap(mann, wantMann) {
+			// the created annotation gives the signing time: the instant counts, not the zone it is written in (a signer
+			// may report its time in a zone of its own, and an RFC 3339 time with an offset names the same instant)
+			gotMann := copyMap(mann)
+			if c, ok := gotMann["org.opencontainers.image.created"]; ok {
+				if ct, perr := time.Parse(time.RFC3339, c); perr == nil && ct.Equal(tCall.Truncate(time.Second)) {
+					gotMann["org.opencontainers.image.created"] = wantMann["org.opencontainers.image.created"]
+				}
+			}
+			if !sameMap(gotMann, wantMann) {
 				res.Violate("C11/manifest-annotations-wrong", key, "signature manifest annotations %v, want %v", mann, wantMann)
 			}
 		}
